@@ -151,7 +151,7 @@ func (w *World) genProbeStep(kind string, r *Rand, sub uint64) (Step, bool) {
 			return mkStep("block", w.genBlock(r), sub), true
 		}
 		a := admissionArgs{TypeIdx: r.Intn(len(urls)), Signer: pick(r, []string{"proposer", "proposer", "voter", "outsider", "validator", "fresh", "authority"}),
-			Memo: r.Chance(0.15), Timeout: pick(r, []string{"", "", "past", "current", "future"}), Mix: pick(r, []int{0, 0, 1, 2}), BadSeq: r.Chance(0.08), BadSig: r.Chance(0.12), Two: r.Chance(0.08), InBlock: r.Chance(0.5), Again: r.Chance(0.3)}
+			Memo: r.Chance(0.15), Timeout: pick(r, []string{"", "", "past", "last", "last", "current", "future"}), Mix: pick(r, []int{0, 0, 1, 2}), BadSeq: r.Chance(0.08), BadSig: r.Chance(0.12), Two: r.Chance(0.08), InBlock: r.Chance(0.5), Again: r.Chance(0.3)}
 		return mkStep("probe.admission", a, sub), true
 	case "probe.fuzztx":
 		kinds := []string{"flip", "flip", "truncate", "extend", "zero-run", "bitmap-len", "drop-field", "swap-bytes", "huge-varint"}
@@ -325,6 +325,8 @@ func (w *World) probeAdmission(a admissionArgs, r *Rand) string {
 	switch a.Timeout {
 	case "past":
 		opt.TimeoutHeight = uint64(maxInt(1, int(w.Cmt.Height)-1))
+	case "last":
+		opt.TimeoutHeight = uint64(maxInt(1, int(w.Cmt.Height)))
 	case "current":
 		opt.TimeoutHeight = uint64(w.Cmt.Height + 1)
 	case "future":
